@@ -212,6 +212,8 @@ impl Ev {
 #[derive(Clone, Debug)]
 pub struct Rec {
     pub seq: u64,
+    /// scheduler step count when the event was recorded
+    pub step: u64,
     pub t: Ns,
     pub task: Option<TaskId>,
     pub ev: Ev,
@@ -571,7 +573,7 @@ impl World {
             }
             self.fingerprint = f;
         }
-        self.history.push(Rec { seq: self.seq, t: self.now, task: self.current, ev });
+        self.history.push(Rec { seq: self.seq, step: self.steps, t: self.now, task: self.current, ev });
     }
 
     pub fn probe(&mut self, name: &'static str) {
